@@ -196,11 +196,9 @@ func toPropertyDescriptor(rt *runtime, value Value) property {
 
 func (rt *runtime) fromPropertyDescriptor(descriptor property) *object {
 	obj := rt.newObject()
-	if descriptor.isDataDescriptor() {
-		obj.defineProperty("value", descriptor.value.(Value), 0o111, false)
-		obj.defineProperty("writable", boolValue(descriptor.writable()), 0o111, false)
-	} else if getSet, isAccessor := descriptor.value.(propertyGetSet); isAccessor {
-		// also when getter and setter are both undefined (8.10.4 step 4)
+	if getSet, isAccessor := descriptor.value.(propertyGetSet); isAccessor {
+		// the payload decides, not the mode bits: the 'caller' and 'stack' accessors are stored with
+		// mode 0o000; also when getter and setter are both undefined (8.10.4 step 4)
 		get := Value{}
 		if getSet[0] != nil {
 			get = objectValue(getSet[0])
@@ -211,6 +209,9 @@ func (rt *runtime) fromPropertyDescriptor(descriptor property) *object {
 		}
 		obj.defineProperty("get", get, 0o111, false)
 		obj.defineProperty("set", set, 0o111, false)
+	} else if descriptor.isDataDescriptor() {
+		obj.defineProperty("value", descriptor.value.(Value), 0o111, false)
+		obj.defineProperty("writable", boolValue(descriptor.writable()), 0o111, false)
 	}
 	obj.defineProperty("enumerable", boolValue(descriptor.enumerable()), 0o111, false)
 	obj.defineProperty("configurable", boolValue(descriptor.configurable()), 0o111, false)
